@@ -81,7 +81,22 @@ def write_layout(path, model, rng, version="0.62.7", identifier=True, internal_b
                     arr = arr.astype(np.uint32)
                 elif feat == "frame":
                     arr = arr.astype(np.uint64)
-                d = _create(ev, feat, arr, rng, st)
+                if (arr.ndim == 1 and arr.dtype.kind == "f" and len(arr) >= 4
+                        and rng.random() < 0.12):
+                    # pre-allocated dataset with a non-default fill value whose trailing
+                    # chunks were never written (reads as the fill value)
+                    c0 = max(1, len(arr) // int(rng.integers(2, 5)))
+                    fill = float(rng.choice([np.nan, 7.5, -1.0]))
+                    d = ev.create_dataset(feat, shape=arr.shape, dtype=arr.dtype, chunks=(c0,),
+                                          fillvalue=fill, maxshape=(None,))
+                    nwritten = c0 * int(rng.integers(1, max(2, len(arr) // c0)))
+                    d[:nwritten] = arr[:nwritten]
+                    arr = arr.copy()
+                    arr[nwritten:] = fill
+                    model["features"][feat] = arr
+                    st[d.name] = "sparse-fill"
+                else:
+                    d = _create(ev, feat, arr, rng, st)
                 if arr.ndim == 1:
                     store = (rng.random() < 0.5) if summaries is None else summaries
                     if store and arr.size and arr.dtype.kind == "f" and not np.all(np.isnan(arr)):
